@@ -34,7 +34,7 @@ REQUIRED = {"table.predicates": 20, "table.partition": 14, "table.inner_outer": 
             "inject.rule": {"quick": 500, "thorough": 3000}, "inject.outline": {"quick": 250, "thorough": 1200},
             "runs.containers_checked": {"quick": 20000, "thorough": 1000000}, "history.latest_run_only": {"quick": 200, "thorough": 8000},
             "history.reset_leaves_nothing": {"quick": 100, "thorough": 4000}}
-REQUIRED_SEEN = {"feature_status": ["passed", "failed", "error", "skipped", "untested", "hook_error"],
+REQUIRED_SEEN = {"rule_titles": ["two_rules_with_the_same_title_or_none"], "feature_status": ["passed", "failed", "error", "skipped", "untested", "hook_error"],
                  "scenario_status": ["passed", "failed", "error", "skipped", "untested", "hook_error"],
                  "junit_mode": ["on", "off"], "raising_step_hook": ["after_step_of_a_failing_step"], "autoretry_patch_style": ["rows", "as_listed"], "raising_tag_hook": ["tag_on_one_level", "tag_on_several_levels"]}
 EXHAUSTIVE = True
@@ -268,7 +268,12 @@ def real_runs(mon, lab, rng, n, tier):
         if i % 3 == 2:
             # backgrounds that mix steps with and without examples placeholders, above outlines with tagged examples
             gen.update({"p_bg_param": 0.6, "p_background": 0.8, "p_outline": 0.5})
+        if i % 4 in (0, 3):
+            # (not together with injected hook / cleanup faults, whose owners the harness knows by title)
+            gen.update({"p_twin_rule_names": 0.5, "max_rules": 3})
         case = RB.gen_case(rng, gen=gen, p_stop=0.3, p_dry=0.15, p_user_skip=0.1, p_names=0.15)
+        if case["program"].get("twin_rule_names"):
+            mon.seen("rule_titles", "two_rules_with_the_same_title_or_none")
         if rng.random() < 0.3:
             # JUnit reporting switched on (the reporter itself is replaced by the checking reporter below): the runner keeps
             # captured output for every scenario then and takes another path at the end of Scenario.run
